@@ -9,7 +9,7 @@ crate's features through and (for C15) link shuttle.
 """
 import os, subprocess, sys, shutil, hashlib
 
-VERIF = os.environ.get("VERIF_DIR", "/verif")
+VERIF = os.environ.get("VERIF_DIR") or os.path.dirname(os.path.dirname(os.path.abspath(__file__)))
 
 SHADOW = """[package]
 name = "dsi-bitstream"
